@@ -8,7 +8,9 @@ META = {
     'level': 'fault_enumeration',
     'exhaustive': True,
     'evaluations': 'crash_points',
-    'rule': 'write corpus of C17; for EVERY crash point of the fault-free '
+    'rule': 'write corpus of C17 plus requests on a consumer holding 42 '
+            'allocation records on 14 providers; for EVERY crash point of '
+            'the fault-free '
             'SQL trace (before each statement / BEGIN / COMMIT / ROLLBACK '
             'event, after each statement, after the last event) a forked '
             'child runs the request and dies by os._exit() at that point - '
@@ -33,6 +35,10 @@ def plan(tier, seed, scale):
     n = 16
     shards = [{'seed': seed, 'slice': i, 'of': n, 'tier': tier,
                'hashseed': 0} for i in range(n)]
+    # a consumer holding 42 allocation records on 14 providers (whatever
+    # batches a write or a delete is cut into, it is one atomic unit)
+    shards.append({'seed': seed, 'slice': 0, 'of': 1, 'tier': tier,
+                   'hashseed': 0, 'wide': True})
     n_rand = int((16 if tier == 'quick' else 640) * scale)
     per = 2 if tier == 'quick' else 40
     for i in range(0, n_rand, per):
@@ -68,6 +74,53 @@ def overcommitted(d):
     return out
 
 
+KW = 'cccccccc-cccc-4ccc-8ccc-ccccccccccc1'
+
+
+def wide_corpus(svc):
+    """14 more providers with three classes each and one consumer holding
+    one unit of everything (42 records); requests that remove, clear or
+    rewrite all of it"""
+    from pv.client import Req
+    c = svc.client
+    allocs = {}
+    for i in range(14):
+        u = 'dddddddd-dddd-4ddd-8ddd-%012d' % i
+        r = c.call('POST', '/resource_providers', {'name': 'w%d' % i,
+                                                   'uuid': u})
+        assert r.status == 200, r.status
+        r = c.call('PUT', '/resource_providers/%s/inventories' % u, {
+            'resource_provider_generation': 0, 'inventories': {
+                'VCPU': {'total': 8}, 'MEMORY_MB': {'total': 1024},
+                'DISK_GB': {'total': 100}}})
+        assert r.status == 200, r.status
+        allocs[u] = {'resources': {'VCPU': 1, 'MEMORY_MB': 1, 'DISK_GB': 1}}
+    body = {'allocations': allocs, 'project_id': 'wide-pj',
+            'user_id': 'wide-us', 'consumer_generation': None,
+            'consumer_type': 'INSTANCE'}
+    r = c.call('PUT', '/allocations/%s' % KW, body)
+    assert r.status == 204, (r.status, r.body[:200])
+    two = {u: {'resources': {'VCPU': 2, 'MEMORY_MB': 2, 'DISK_GB': 2}}
+           for u in allocs}
+    half = {u: x for i, (u, x) in enumerate(sorted(two.items())) if i % 2}
+    v = '1.39'
+    return {
+        'DELETE /allocations wide consumer (42 records)': Req(
+            'DELETE', '/allocations/%s' % KW, v),
+        'PUT /allocations wide consumer cleared': Req(
+            'PUT', '/allocations/%s' % KW, v, dict(body, allocations={},
+                                                   consumer_generation=1)),
+        'PUT /allocations wide consumer rewritten (42 records)': Req(
+            'PUT', '/allocations/%s' % KW, v, dict(body, allocations=two,
+                                                   consumer_generation=1)),
+        'POST /allocations wide consumer halved + a new consumer': Req(
+            'POST', '/allocations', v, {
+                KW: dict(body, allocations=half, consumer_generation=1),
+                world.K3: dict(body, allocations={
+                    sorted(allocs)[0]: {'resources': {'VCPU': 1}}})}),
+    }
+
+
 def run_shard(spec, res):
     from pv.histrun import Service
     from pv.sqlwatch import SqlWatch
@@ -86,6 +139,11 @@ def run_shard(spec, res):
         mine = [n for i, n in enumerate(names)
                 if i % spec['of'] == spec['slice']]
         snap_of = {}
+        if spec.get('wide'):
+            corp = wide_corpus(svc)
+            base = svc.app.snapshot(svc.app.db_path + '.wide')
+            mine = sorted(corp)
+            res.count('wide_corpus_requests', len(mine))
         if spec.get('random'):
             corp, snap_of = faults.random_corpus(svc, spec)
             mine = sorted(corp)
